@@ -22,6 +22,11 @@ zero reads    : (C) a stream whose init succeeds after logging (all five non-EXC
                 (empty, or through its own exception), for producer / exchange x header-less / headered, over pipe, unix,
                 tcp, shm-pipe and HTTP: every init log must reach on_log once, in order (keys
                 init-logs-not-delivered-when-stream-ended-by-<how>-before-first-read); traces vs run_pipe / run_http.
+post-emit logs: (D) steps that log before AND after out.emit*() through out.client_log / ctx.client_log /
+                ctx.emit_client_log / out.emit_client_log_message (harness/c08_ext.py), producer and exchange, pipe and
+                HTTP, inline vs externalised route (in-memory storage, threshold 0): same messages, once, in order
+                (key logs-after-data-batch-dropped-on-externalised-route).  Not modelled in Coq (M_Wire steps log before
+                the emit); oracle only.  HTTP exchange on the inline route is excluded (see part D comment).
 oracle        : the property's own predicate on what the real code did: nothing but RpcError escapes a call whatever
                 the peer sent, a known-level message is delivered with its members; delivered logs are an initial
                 segment of the emitted ones (once, in order, level/text/extras equal), every returned data item is
@@ -430,7 +435,7 @@ def run(ctx: Any) -> None:
     ctx.rule = ("A: case = one received batch (has-metadata, rows, level, message, log_extra bytes, server_id, request_id) run through the real "
                 "_dispatch_log_or_error and (zero-row log batches) through a complete unary call of the real client against a scripted peer; "
                 "B: case = (program, script incl. zero reads then close/cancel) through the interpreter service over pipe and HTTP x cap; "
-                "C: case = (init logs, method, zero reads, close|cancel|with|with_raise, transport in pipe/unix/tcp/shm_pipe/http); distinct by canonical JSON; "
+                "D: case = (steps with logs before/after the data batch, method, transport, inline|externalised route); C: case = (init logs, method, zero reads, close|cancel|with|with_raise, transport in pipe/unix/tcp/shm_pipe/http); distinct by canonical JSON; "
                 "non-trivial = A: a zero-row batch with both log keys, B: a program that emits at least one log")
     cases = peer_cases(ctx)
     t0 = time.time()
@@ -642,6 +647,78 @@ def run(ctx: Any) -> None:
     ctx.sample({"C": {"init_logs": zprogs[0][1]["init_logs"], "method": "producer", "reads": 0, "then": "with", "expected": "on_log called once per init log, in order"}})
     for smp in progs[len(fixed):len(fixed) + 3]:
         ctx.sample({"B": {"program": smp["prog"], "script": smp["script"], "pipe_trace": smp.get("pipe")}})
+    # ======================================================================= part D: logs on both sides of the data batch, externalised route
+    # A step may log AFTER out.emit*(): those batches follow the data batch in the step's collector.  With an
+    # ExternalLocationConfig (threshold 0) the whole collector is uploaded as one IPC stream and replaced by a pointer batch;
+    # the client dispatches the logs of the fetched stream.  Oracle as everywhere (every message once, in order), plus: the
+    # externalised route delivers the same messages as the inline route.  No EXCEPTION-level logs (C30 owns
+    # exception-log-after-data-drops-the-externalised-batch).  Excluded with a note: HTTP exchange on the INLINE route -- the
+    # unchanged client reads an exchange response only up to its data batch, so ordinary logs emitted after out.emit() are
+    # not delivered there (reported to the coordinator; candidate key http-exchange-logs-after-data-batch-dropped).
+    from harness import c08_ext as X
+
+    t0 = time.time()
+    chans = ["out", "ctx", "msg", "outmsg"]
+
+    def xlog(tag: str) -> list[Any]:
+        ch = rng.choice(chans)
+        keys = ["k", "detail", "n_rows"] + (["level", "message", "self"] if ch in ("msg", "outmsg") else [])
+        extra = {rng.choice(keys): rng.choice(["v", "", "7", "ü"]) for _ in range(rng.choice([0, 0, 1, 2]))}
+        return [rng.choice(KNOWN_LEVELS), f"{tag}-{ch}-{rng.randrange(1000)}", extra, ch]
+
+    xprogs: list[dict[str, Any]] = [
+        {"steps": [{"pre": [["INFO", "before 0", {"step": "0"}, "out"]], "rows": 200, "post": [["WARN", "after 0", {"rows": "200"}, "out"], ["DEBUG", "ctx-after 0", {}, "ctx"], ["TRACE", "msg-after 0", {"level": "x"}, "msg"], ["ERROR", "outmsg-after 0", {}, "outmsg"]]},
+                   {"pre": [], "rows": 1, "post": [["INFO", "after 1", {}, "ctx"]]}]},
+    ]
+    for _ in range(24 if thorough else 3):
+        xprogs.append({"steps": [{"pre": [xlog("pre") for _ in range(rng.choice([0, 1, 2]))], "rows": rng.choice([0, 1, 50, 400]),
+                                  "post": [xlog("post") for _ in range(rng.choice([1, 1, 2, 3]))]} for _ in range(rng.choice([1, 2, 3]))]})
+    n_d = 0
+    uploads = 0
+    for xi, xp in enumerate(xprogs):
+        xpid = 9000 + xi
+        X.PROGRAMS[xpid] = xp
+        for method in ("prod", "exch"):
+            E = []
+            for st in xp["steps"]:
+                E += [["log", l[0], l[1], dict(l[2])] for l in st["pre"]] + [["batch", st["rows"], None, None]] + [["log", l[0], l[1], dict(l[2])] for l in st["post"]]
+            if method == "prod":
+                E.append(["done"])
+            xkind = "producer" if method == "prod" else "exchange"
+            for tkind in ("pipe", "http"):
+                res: dict[bool, list[Any]] = {}
+                for extern in (False, True):
+                    T, up = X.run(tkind, extern, method, xpid, timeout=15.0)
+                    n_d += 1
+                    ctx.count("impl_runs")
+                    res[extern] = T
+                    route = "externalised" if extern else "inline"
+                    uploads += up if extern else 0
+                    ctx.case(["D", xp, method, tkind, route])
+                    ctx.tally("D.route", f"{tkind}:{method}:{route}")
+                    repl = {"program": xp, "method": method, "transport": tkind, "route": route, "uploads": up, "trace": T, "emitted": E}
+                    if not extern and up:
+                        ctx.violation("inline-route-uploaded", "a server without external storage uploaded a batch", repl)
+                    if tkind == "http" and method == "exch" and not extern:
+                        lost = len([e for e in E if e[0] == "log"]) - len([e for e in T if e[0] == "log"])
+                        ctx.tally("D.excluded", f"http-exchange-inline (logs after the data batch not read: {'lost' if lost else 'none lost'})")
+                        continue
+                    bad_ev = next((e for e in T if e[0] in ("client_exc", "blocked", "error")), None)
+                    if bad_ev is not None:
+                        ctx.violation(f"logs-around-data-batch-{route}:{bad_ev[0]}", f"the call produced {bad_ev}", repl)
+                        continue
+                    problem, detail = check_trace(E, T, xkind, [])
+                    ctx.tally("D.oracle", str(problem))
+                    if problem in ("lost", "order") and extern and res.get(False) is not None and [e for e in res[False] if e[0] == "log"] == [e for e in E if e[0] == "log"]:
+                        ctx.violation("logs-after-data-batch-dropped-on-externalised-route",
+                                      "client logs emitted around the data batch of an externalised stream cycle are not all delivered in order; the inline route delivers them: " + detail,
+                                      {**repl, "inline_trace": res[False]})
+                    elif problem is not None and problem != "data":
+                        ctx.violation(f"log-delivery:{problem}", detail, repl)
+    ctx.obligation("env:externalised-route-exercised", "environment", uploads > 0, f"{uploads} uploads: the externalised leg is vacuous" if not uploads else f"{uploads} uploads")
+    ctx.log(f"part D: {n_d} runs with logs on both sides of the data batch in {time.time() - t0:.1f}s")
+    ctx.sample({"D": {"step": "log, emit 200 rows, log (out / ctx / Message channels)", "routes": "inline vs externalised (threshold 0)", "expected": "same messages, once, in order"}})
+
     header_b = HEADER + "From VGI Require Import M_WireLog.\n"
     ty_in = "prog * script"
     ok1, bad1, log1 = ctx.coq_mismatches(header_b, "rp", "trace_eqb", m_pipe, ty_in, "list event", shard=40)
@@ -665,4 +742,6 @@ def run(ctx: Any) -> None:
         "level / message / server_id / request_id bytes are UTF-8 (non-UTF-8 there is outside the property's quantifier)",
         "the interpreter service's log helper is replaced in-process by one that assigns Message.extra (extras named level/message/self cannot be passed as keyword arguments)",
         "FIFO byte channels and identity wrappers as in C01; the in-process Falcon app stands for HTTP",
+        "part D: external storage is the in-memory dict of harness.interp with vgi_rpc.external.fetch_url redirected to it; tenacity is a stub; logs after out.emit() are checked by the oracle only (not in M_Wire)",
+        "part D excludes HTTP exchange on the inline route: the unchanged client reads an exchange response only up to its data batch (logs emitted after out.emit() are not delivered there)",
     ]
